@@ -101,6 +101,13 @@ func genC02(t *rapid.T) c02Case {
 			d.People[i].F["sb"] = kit.SV("same")
 		}
 	}
+	withStaff := rapid.IntRange(0, 2).Draw(t, "withStaff") == 0
+	if withStaff {
+		// a mixed population of plain people and people with child data in the staff child store
+		for i := range d.People {
+			d.People[i].Staff = rapid.Bool().Draw(t, fmt.Sprintf("staff%d", i))
+		}
+	}
 	c := c02Case{Data: d}
 	nq := rapid.IntRange(3, 8).Draw(t, "nQueries")
 	for i := 0; i < nq; i++ {
@@ -115,6 +122,9 @@ func genC02(t *rapid.T) c02Case {
 		}
 		q.Sort = genSort(t, l, c02SortSyms, 5)
 		q.Page = genPaging(t, l, len(d.People))
+		if withStaff {
+			q.Via = []string{"", "staff", "staff", "staffx"}[rapid.IntRange(0, 3).Draw(t, l+"_via")]
+		}
 		c.Queries = append(c.Queries, q)
 	}
 	return c
@@ -129,11 +139,21 @@ func runC02(c c02Case) kit.Result {
 		res.Err = fmt.Errorf("writing dataset: %v", err)
 		return res
 	}
-	store := schema.People
 	err := db.DB.View(func(tx *bbolt.Tx) error {
 		for qi := range c.Queries {
 			q := &c.Queries[qi]
 			text := q.Render()
+			store := schema.People
+			member := func(id string) bool { return true }
+			switch q.Via {
+			case "staff":
+				store = schema.Staff
+				member = func(id string) bool { return c.Data.PersonByID(id).Staff }
+				res.Classes = append(res.Classes, "via:child-store")
+			case "staffx":
+				store = schema.StaffX
+				res.Classes = append(res.Classes, "via:extended-child-store")
+			}
 			var matches []string
 			if q.Pred != nil {
 				must, may := kit.RefMatch(c.Data, "people", q.Pred)
@@ -144,6 +164,19 @@ func runC02(c c02Case) kit.Result {
 				matches = must
 			} else {
 				matches = idsOf(c.Data, "people")
+			}
+			if q.Via == "staff" {
+				// the child store's population: only people with child data
+				var in []string
+				for _, id := range matches {
+					if member(id) {
+						in = append(in, id)
+					}
+				}
+				if len(in) < len(matches) {
+					res.Classes = append(res.Classes, "via:child-store-excludes-matching-plain-parent")
+				}
+				matches = in
 			}
 			ordered := kit.RefOrder(c.Data, "people", matches, q.Sort)
 			want := kit.RefPage(ordered, q.Page)
@@ -187,10 +220,10 @@ func runC02(c c02Case) kit.Result {
 
 			check := func(route string, ids []string, count int64, err error) error {
 				if err != nil {
-					return fmt.Errorf("query: %s\n  %s returned error: %v", text, route, err)
+					return fmt.Errorf("query: %s [via %q]\n  %s returned error: %v", text, q.Via, route, err)
 				}
 				if fmt.Sprint(ids) != fmt.Sprint(want) || (count >= 0 && int(count) != len(matches)) {
-					return fmt.Errorf("query: %s\n  %s -> %v count %d\n  reference -> %v count %d (matches in order: %v)", text, route, ids, count, want, len(matches), ordered)
+					return fmt.Errorf("query: %s [via %q]\n  %s -> %v count %d\n  reference -> %v count %d (matches in order: %v)", text, q.Via, route, ids, count, want, len(matches), ordered)
 				}
 				return nil
 			}
